@@ -77,12 +77,20 @@ def handleId (f : List String) : String × String × String :=
       (diff, judge, tags)
   | _ => ("bad-fields", "-", "-")
 
-def parseHop (s : String) : Option Hop :=
-  if s.startsWith "h:" then (hexDecode (s.drop 2).toString).map Hop.http
-  else if s == "g:none" then some (.grpc none)
-  else if s == "g:empty" then some (.grpc (some []))
-  else if s.startsWith "g:" then (parseOkList (s.drop 2).toString).map (fun l => Hop.grpc (some l))
-  else none
+/-- hop syntax: `h:<hex>` / `g:none|empty|<hex>,..`, optionally followed by `!<hex>` = the receiving
+context already holds that identifier. -/
+def parseHop (s0 : String) : Option Hop :=
+  let (s, recv?) : String × Option Ctx := match s0.splitOn "!" with
+    | [a, r] => (a, (hexDecode r).map some)
+    | _ => (s0, some none)
+  match recv? with
+  | none => none
+  | some recv =>
+    if s.startsWith "h:" then (hexDecode (s.drop 2).toString).map (fun e => Hop.http e recv)
+    else if s == "g:none" then some (.grpc none recv)
+    else if s == "g:empty" then some (.grpc (some []) recv)
+    else if s.startsWith "g:" then (parseOkList (s.drop 2).toString).map (fun l => Hop.grpc (some l) recv)
+    else none
 
 def handleChain (f : List String) : String × String × String :=
   match f with
@@ -102,7 +110,7 @@ def handleChain (f : List String) : String × String × String :=
           (if (obs.drop 3).toString == ids then "-" else "id-changed-in-transit")
         else "-"
       let judge := if ids == "none" ∧ !hs.isEmpty ∧ obs.startsWith "ok:" then "default-id-invented" else judge
-      (diff, judge, s!"hops={min hs.length 5} res={(obs.take 3).toString}")
+      (diff, judge, s!"hops={min hs.length 5} res={(obs.take 3).toString} stale={hops.contains '!'}")
     | _, _ => ("bad-input", "-", "-")
   | _ => ("bad-fields", "-", "-")
 
